@@ -51,6 +51,8 @@ inductive Act
   | startTimer         -- p.escTimeout = time.AfterFunc(10ms, …)
   | deferClearIgnoreST -- defer func() { p.ignoreST = false }()
   | retIfIgnoreST (n : Next) -- if p.ignoreST { return n }
+  | unknown            -- a statement the extractor does not know (listed in `Gen.ParserTable.unrecognised`;
+                       -- `Props.C02.gen_fully_recognised` requires that there is none)
   deriving DecidableEq, Repr, Inhabited
 
 /-- A `case` label: `in(r, lo, hi)`, `r == c`, `r == eof`. -/
